@@ -239,6 +239,76 @@ def r_merge(ctx):
         ctx.incomplete_msg(rid, "only %d configurations evaluated" % n)
 
 
+def r_anchors(ctx):
+    rid = "C16.anchors"
+    ctx.rule(rid, "visit_group_entry hands merge two slots per member / group-name entry: EntryLeading at (lo, lo) on the line where the "
+                  "entry starts, and EntryTrailing from lo to the entry's tight end on the line of that *end* — a same-line trailing comment "
+                  "of an entry that spans several lines is on the line of its last token (abstract evaluation on a three-line input, the "
+                  "tight end and the nested type visit scripted)", floor=2)
+    R = Runner(ctx.facts)
+    fi = R.fns.get("visit_group_entry")
+    if fi is None:
+        raise vf.Incomplete("visit_group_entry not found")
+    text = "ab\ncd\nef gh"
+    lo, tight = 0, 8            # the entry starts on line 1 and its last token ends on line 3
+    line = lambda b: text[:b].count("\n") + 1
+    entries = {
+        "member": ("enum", "ast::GroupEntry::ValueMemberKey", {"ge": ("enum", "ValueMemberKeyEntry", {"occur": ("None",), "member_key": ("None",), "entry_type": OPAQUE}),
+                                                               "span": span(lo, 11), "leading_comments": ("None",), "trailing_comments": ("None",)}),
+        "groupname": ("enum", "ast::GroupEntry::TypeGroupname", {"ge": OPAQUE, "span": span(lo, 11), "leading_comments": ("None",), "trailing_comments": ("None",)}),
+    }
+    for label, entry in entries.items():
+        got = []
+
+        def on_call(kind, nm, node, a, recv, got=got):
+            if kind == "fn" and nm == "cb":
+                got.append((a[0], a[1]))
+                return ("tuple", [])
+            if kind == "fn" and nm == "entry_tight_end":
+                return tight
+            if kind == "fn" and nm in ("visit_type", "visit_group"):
+                return ("tuple", [])
+            if kind == "fn" and nm == "line_of_byte" and isinstance(a[1], int):
+                return line(a[1])
+            if kind == "fn" and nm in R.fns:
+                return R._run(R.fns[nm], None, a, 1)
+            return NotImplemented
+        names = [inp["pat"]["n"] if inp.get("pat", {}).get("k") == "pid" else None for inp in fi.node["sig"]["inputs"]]
+        env = dict(zip(names, [entry, ("str", text), ("callback",)]))
+        it = Interp(env=env, on_call=on_call)
+        it.on_call = on_call
+        try:
+            try:
+                it.block(fi.node["body"])
+            except Return:
+                pass
+        except Unknown as e:
+            ctx.incomplete_msg(rid, "%s: %s" % (label, e))
+            continue
+        slots = {}
+        bad = False
+        for pos, kind in got:
+            if not (isinstance(pos, tuple) and pos[:1] == ("enum",) and isinstance(pos[2], dict) and isinstance(kind, tuple) and kind[:1] == ("enum",)):
+                bad = True
+                continue
+            d = pos[2]
+            if any(absint.has_opaque(d.get(k)) for k in ("lo", "hi", "line_hi")):
+                bad = True
+                continue
+            slots[kind[1].split("::")[-1]] = (d.get("lo"), d.get("hi"), d.get("line_hi"))
+        if bad or not slots:
+            ctx.incomplete_msg(rid, "%s: the anchors handed to the callback could not be evaluated (%r)" % (label, got[:2]))
+            continue
+        ctx.site(rid, label, B, fi.line, {"slots": {k: list(v) for k, v in slots.items()}})
+        want = {"EntryLeading": (lo, lo, line(lo)), "EntryTrailing": (lo, tight, line(tight))}
+        for k, w in want.items():
+            if slots.get(k) != w:
+                ctx.violation(rid, "%s|%s" % (label, k), B, fi.line, "visit_group_entry gives the %s slot of a %s entry (lo, hi, line) = %r; an entry from byte %d "
+                              "(line %d) whose last token ends at byte %d (line %d) must have %r — merge binds a trailing comment by the line of the "
+                              "anchor's end, so the comment after a multi-line entry goes to an inner type choice and is printed without its line break"
+                              % (k, label, slots.get(k), lo, line(lo), tight, line(tight), w))
+
+
 def r_source(ctx):
     rid = "C16.source"
     ctx.rule(rid, "CommentTok is constructed only in collect_comment_toks, whose spans come from collect_comment_spans (Rule::COMMENT pairs only); "
@@ -372,4 +442,5 @@ def run(ctx):
     ctx.guarded("C16.source", r_source)
     ctx.guarded("C16.tight", r_tight)
     ctx.guarded("C16.merge", r_merge)
+    ctx.guarded("C16.anchors", r_anchors)
     ctx.guarded("C16.render", r_render)
